@@ -122,10 +122,13 @@ def run(ctx):
         if "RESULT exc mesh_writer" not in p.stdout or SC.classify(p.returncode, p.stderr)[0]:
             V.fail_input("mesh_writer::write on an unwritable path did not end in a mesh_writer exception: %s %s" % (p.stdout[:100], p.stderr[-200:]), {"mode": "write", "threads": th})
     # ---- 3. several cells dividing in the same round, many threads: no cell lost / duplicated / duplicate id
-    for k in range(1 if not wide else 4):
+    for k in range(2 if not wide else 6):
         with SC.Workdir() as wd:
             ncell = r.randint(3, 4)
-            cells = [SC.icosphere(2, 5e-6, (i * 4.1e-5, 0.0, 0.0), (1.0, 0.85, 1.3), 0.17) + (0,) for i in range(ncell)]
+            # descending sizes: the mothers with the higher list indices finish their division first, so the order in which the
+            # threads report is NOT the list order (every second round; the others use equal cells)
+            lv = (lambda i: 3 if i < (ncell + 1) // 2 else 1) if (stats["division_rounds"] % 2 == 0) else (lambda i: 2)
+            cells = [SC.icosphere(lv(i), 5e-6, (i * 4.1e-5, 0.0, 0.0), (1.0, 0.85, 1.3), 0.17) + (0,) for i in range(ncell)]
             mesh = os.path.join(wd, "t.vtk")
             SC.write_vtk(mesh, cells)
             params = SC.make_params(wd, mesh, "7.5e-7", {"perform_initial_triangulation": "0", "avg_division_volume": "3e-16", "std_division_volume": "0", "min_vol": "1e-19", "std_growth_rate": "0"}, {})
